@@ -310,7 +310,14 @@ def job(args):
             back = g.to_tz(tzp, lookup_tzid=False)
         except Exception as e:  # noqa: BLE001
             back = None
-            res['viol'].append(('convert-raises', inp, f'to_tz raised {type(e).__name__}: {e}', '|'.join(others)))
+            only_daylight = bool(g.subcomponents) and all(s.name == 'DAYLIGHT' for s in g.subcomponents)
+            if only_daylight and prov == 'pytz' and isinstance(e, AssertionError):
+                # the window lies wholly in summer time: the generated definition has DAYLIGHT observances only, which
+                # the pytz conversion cannot read (C12 daylight-only-definition) - the recorded window-starts-in-dst defect
+                res['viol'].append(('convert-raises', inp, f'to_tz raised {type(e).__name__} on a DAYLIGHT-only generated definition',
+                                    'tzgen-window-starts-in-dst'))
+            else:
+                res['viol'].append(('convert-raises', inp, f'to_tz raised {type(e).__name__}: {e}', '|'.join(others)))
         if back is not None:
             conv = set()
             pick = inside if len(inside) <= 40 else rng.sample(inside, 40)
